@@ -271,7 +271,7 @@ func CheckOutputsWith(prefix string, out []*ach.File, cond ach.Conditions, plans
 			last := ""
 			seen := map[string]bool{}
 			for ei, e := range b.Entries {
-				tr := fmt.Sprintf("%015s", e.Trace)
+				tr := e.Trace // compared as the library compares them: as strings (custom trace numbers need not be 15 digits)
 				if seen[tr] {
 					fail("trace-duplicate-in-batch", "a trace number occurs twice inside one merged batch",
 						fmt.Sprintf("output %d batch %d trace %s", i, b.Number, e.Trace), "unique trace numbers inside a batch")
@@ -305,6 +305,28 @@ func CheckOutputsWith(prefix string, out []*ach.File, cond ach.Conditions, plans
 		got := map[string]int{}
 		for _, b := range snaps[idx[0]].Batches {
 			got[b.HeaderID]++
+		}
+		// an entry sits in a later batch of its header only because every earlier batch of that header already holds
+		// its trace number
+		{
+			held := map[string][]map[string]bool{} // header -> per batch (in file order) the trace numbers it holds
+			for _, b := range snaps[idx[0]].Batches {
+				for k, earlier := range held[b.HeaderID] {
+					for _, e := range b.Entries {
+						if !earlier[e.Trace] {
+							fail("unbound/entry-apart-without-collision", "an entry is not in the first batch of its header although that batch holds no entry with its trace number",
+								fmt.Sprintf("header [%s]: trace %s sits in batch #%d, the %d. batch of this header holds no such trace", b.HeaderID, e.Trace, b.Number, k+1),
+								"entries under equal batch headers share one batch unless their trace numbers collide")
+							break
+						}
+					}
+				}
+				set := map[string]bool{}
+				for _, e := range b.Entries {
+					set[e.Trace] = true
+				}
+				held[b.HeaderID] = append(held[b.HeaderID], set)
+			}
 		}
 		var hs []string
 		for h := range p.MinBatches {
